@@ -17,7 +17,7 @@ RULE = ('cases = 1-5 back-to-back transactions between a client MemoryAccess/Dm1
         'four state attributes IDLE afterwards; non-trivial = >= 1 transaction judged; distinct = (kinds, sizes class, seed/key, raw)')
 ASSUMPTIONS = ['the server application knows the object size by convention (DM14 does not transmit it): it supplies count x size bytes',
                'left-over items in internal queues are recorded as a diagnostic; the verdict is on returned / handed-over data and the state attributes']
-MIN_OBS = {'transactions': {'quick': 6000, 'thorough': 120000}, 'reads_checked': {'quick': 3000, 'thorough': 60000}, 'writes_checked': {'quick': 2000, 'thorough': 40000},
+MIN_OBS = {'transactions': {'quick': 5000, 'thorough': 100000}, 'reads_checked': {'quick': 3000, 'thorough': 60000}, 'writes_checked': {'quick': 1600, 'thorough': 32000},
            'multipacket': {'quick': 2000, 'thorough': 40000}, 'with_seedkey': {'quick': 1500, 'thorough': 30000}, 'converted_reads': {'quick': 1000, 'thorough': 20000},
            'lengths_covered_max': 255}
 
